@@ -635,9 +635,20 @@ err:
 static int
 _BTree_clear(BTree *self)
 {
+    /* Detach everything from the node before releasing any of it:
+     * releasing a child releases its keys and values, which may run
+     * arbitrary code (a finalizer, a weakref callback) that looks at - or
+     * changes - this very tree.
+     */
     const int len = self->len;
+    BTreeItem *data = self->data;
+    Bucket *firstbucket = self->firstbucket;
 
-    if (self->firstbucket)
+    self->len = self->size = 0;
+    self->data = NULL;
+    self->firstbucket = NULL;
+
+    if (firstbucket)
     {
         /* Obscure:  The first bucket is pointed to at least by
         * self->firstbucket and data[0].child of whichever BTree node it's
@@ -646,36 +657,33 @@ _BTree_clear(BTree *self)
         * count":  we can only rely on self's pointers being intact.
         */
 #ifdef PERSISTENT
-        ASSERT(Py_REFCNT(self->firstbucket) > 0,
+        ASSERT(Py_REFCNT(firstbucket) > 0,
             "Invalid firstbucket pointer", -1);
 #else
-        ASSERT(Py_REFCNT(self->firstbucket) > 1,
+        ASSERT(Py_REFCNT(firstbucket) > 1,
             "Invalid firstbucket pointer", -1);
 #endif
-        Py_DECREF(self->firstbucket);
-        self->firstbucket = NULL;
+        Py_DECREF(firstbucket);
     }
 
-    if (self->data)
+    if (data)
     {
         int i;
         if (len > 0) /* 0 is special because key 0 is trash */
         {
-            Py_DECREF(self->data[0].child);
+            Py_DECREF(data[0].child);
         }
 
         for (i = 1; i < len; i++)
         {
 #ifdef KEY_TYPE_IS_PYOBJECT
-            DECREF_KEY(self->data[i].key);
+            DECREF_KEY(data[i].key);
 #endif
-            Py_DECREF(self->data[i].child);
+            Py_DECREF(data[i].child);
         }
-        free(self->data);
-        self->data = NULL;
+        free(data);
     }
 
-    self->len = self->size = 0;
     return 0;
 }
 
@@ -1071,9 +1079,20 @@ BTree__p_deactivate(BTree *self, PyObject *args, PyObject *keywords)
         }
         if (ghostify)
         {
-            if (_BTree_clear(self) < 0)
-                return NULL;
+            /* Become a ghost first and release the contents afterwards:
+             * releasing them may run arbitrary code (a finalizer, a weakref
+             * callback) that looks at this node, and it must then find a
+             * ghost - which is simply loaded again - not a node that is
+             * still up to date and already empty.  Ghostification drops
+             * the cache's reference to the node: hold one meanwhile.
+             */
+            int status;
+            Py_INCREF(self);
             PER_GHOSTIFY(self);
+            status = _BTree_clear(self);
+            Py_DECREF(self);
+            if (status < 0)
+                return NULL;
         }
     }
 
